@@ -156,7 +156,7 @@ Print Assumptions C05_integer_end_to_end.
 Example C05_printer_example :
   print_range [PRange BdMin (BdNum (-10) 0); PSingle (BdNum 18446744073709551616 0)] =
   [x6d;x69;x6e;x2e;x2e;x2d;x31;x30;x7c;x31;x38;x34;x34;x36;x37;x34;x34;x30;x37;x33;x37;x30;x39;x35;x35;x31;x36;x31;x36].
-Proof. vm_compute. reflexivity. Qed.
+Proof. exact printer_example. Qed.
 
 (** Selection.Set with an already typed value: never crashes, leaves the store alone unless
     accepted, and for every numeric, decimal and string type decides exactly as the converting
